@@ -265,6 +265,25 @@ def derived_checks(rng, case):
         return 'B(offset+d) != B + d*A'
     if np.abs(lam2.D - (lam.D + 2 * d * lam.B + d * d * lam.A)).max() > 1e-9 * S['D']:
         return 'D(offset+d) != D + 2dB + d^2 A'
+    # the SAME Laminate object evaluated again: idempotent; after moving the reference surface it gives what a freshly read stack gives
+    # (the matrices belong to the current definition, not to the history of the object)
+    keep = {n_: np.array(getattr(lam, n_)) for n_ in ('A', 'B', 'D', 'E', 'ABD', 'ABDE')}
+    lam.calc_constitutive_matrix()
+    for n_, v_ in keep.items():
+        if not np.array_equal(np.asarray(getattr(lam, n_)), v_):
+            return 'calc_constitutive_matrix() evaluated a second time on the same Laminate changes %s (max change %.3e)' % (
+                n_, np.abs(np.asarray(getattr(lam, n_)) - v_).max())
+    lam.offset = case['offset'] + d
+    lam.calc_constitutive_matrix()
+    for n_ in 'ABD':
+        if np.abs(getattr(lam, n_) - getattr(lam2, n_)).max() > 1e-12 * S[n_]:
+            return ('after lam.offset is changed and calc_constitutive_matrix() re-run on the same Laminate, %s differs from that of a freshly read '
+                    'stack with the new offset (max diff %.3e)' % (n_, np.abs(getattr(lam, n_) - getattr(lam2, n_)).max()))
+    lam.offset = case['offset']
+    lam.calc_constitutive_matrix()
+    for n_, v_ in keep.items():
+        if np.abs(np.asarray(getattr(lam, n_)) - v_).max() > 1e-12 * max(np.abs(v_).max(), 1e-300):
+            return 'moving the reference surface away and back on the same Laminate does not restore %s' % n_
     # positive definiteness
     w = np.linalg.eigvalsh(lam.ABD)
     if w.min() <= 0:
